@@ -130,6 +130,24 @@ def run(ck):
                 break
         ck.case(("sr", N, repr(hist)), nontrivial=overwrites > 0, kind="set_rate", size=N,
                 sample={"set_rate_history": hist[:8], "N": N} if h < 2 else None)
+    # ---- (a'') rates of any magnitude: very slow rates, and re-assignments that differ from the stored value in the sixth digit ---------------
+    for N in (2, 4):
+        seq = [((0, 1), 5.0e-9), ((1, 0), 2.0 ** -40), ((0, 1), 0.01), ((0, 1), 0.01 * (1.0 + 2.0e-6)), ((N - 1, 0), 1.0e-12), ((1, 0), 2.0 ** -40 * (1.0 + 2.0 ** -20))]
+        inp = {"N": N, "assignments": [[list(p_), v_] for p_, v_ in seq]}
+        ck.case(("sr-magnitudes", N), nontrivial=True, kind="set_rate", size=N)
+        try:
+            rmm = RateMatrix(dim=N)
+            lastv = {}
+            for p_, v_ in seq:
+                rmm.set_rate(p_, v_); lastv[p_] = v_
+                badv = [(k_, float(rmm.data[k_]), lastv[k_]) for k_ in lastv if float(rmm.data[k_]) != lastv[k_]]
+                csum = float(numpy.abs(numpy.array(rmm.data, dtype=float).sum(axis=0)).max())
+                if badv or csum > 1e-17:
+                    ck.fail("set_rate:value:magnitudes", "an assigned rate (very small, or differing from the stored one in the sixth digit) is not kept / columns do not "
+                            "sum to zero", inp, [badv, csum])
+                    break
+        except Exception as e:
+            ck.fail("raises:set_rate:magnitudes", "raised %r" % (e,), inp)
     # ---- (a') a rate matrix handed over as an array of whole numbers (integer dtype): assigned rates are kept as assigned ------------------
     for N in (2, 3):
         for start_ in ("zeros", "whole-number rates"):
